@@ -179,6 +179,10 @@ impl<K: KindInternals> ChSys<K> {
         for n in 0..=dense_apply {
             menu.push(Act::Apply(n));
         }
+        // a few long requests (several wide chunks in one call); their successors leave the windows
+        for n in [1024usize, 2051, 4099] {
+            menu.push(Act::Apply(n));
+        }
         if c11 {
             // requests far beyond the end, and up to two wide chunks past it
             for n in [dense_apply + 1, dense_apply + 64, dense_apply + 256, dense_apply + 512, 4096] {
@@ -197,7 +201,7 @@ impl<K: KindInternals> ChSys<K> {
         }
         // keystream cache
         let mut ks = HashMap::new();
-        let margin = (dense_apply as u64 + 4096) / 64 + 3;
+        let margin = (dense_apply as u64 + 4200) / 64 + 3;
         for (a, b) in &windows {
             let first = (*a / 64) as u64;
             let last = ((*b + 63) / 64) as u64 + margin;
